@@ -664,6 +664,7 @@ def main(tier: str) -> int:
         "exact-arithmetic theorems: the rounding error of the streaming recurrences is measured by the Fraction oracle, not bounded by a theorem",
         "int observations beyond 2^53 (where Tally keeps the exact int in min/max) are not generated",
     ])
+    run.assumptions = ["math.sqrt respects equality and is positive on positive arguments (contract on the uninterpreted sqrt of the exact-arithmetic theorems)", "NormalDist.inv_cdf answers on the open unit interval (theorems) / is the table recorded from this run (tie)", "Coq primitive floats and CPython floats agree bit for bit on + - * / sqrt and comparisons", "observations are floats or ints of magnitude <= 2^53 (or rejected inputs)"]
     C.use_repo_sources()
     rng = random.Random(run.seed * 104729 + 9)
     quick = tier == "quick"
